@@ -30,6 +30,10 @@
  *                                      the record has an un-memoised triple or no triple at all (otherwise the code reads through NULL: `ub`)
  *   H <tid> <nthreads> <rounds> <cls>… threads doing first lookups on cold caches, repeatedly
  *   D <tid>                            dump
+ *   Z <b> <text>                       the CALLER writes <text> into its own character buffer b (strcpy; 64 buffers of 64 bytes, harness-owned,
+ *                                      never freed).  A name token `@<b>` in C/T/N/W passes `$S(buffer b)` as the name of the type: Type_New keeps
+ *                                      that POINTER as `__Name`, and every triple built from an instance of that class copies it.  Observation:
+ *                                      `Z <b> t=<class/type tokens whose __Name cell points into b> e=<tid:index of triples whose name word points into b>`
  * Observations: results as `#<index of the triple whose inst was returned>` | NULL | exception name; for S/T types followed by the
  * canonical dump of the concrete record `c=<slot>:<index>,… m=<index>:<class token>,… h=<header type word set>`; N and W add
  * `z=<number of non-NULL words between the terminator triple and the end of the storage>`.
@@ -43,7 +47,10 @@
  * compared with "first triple whose name is the CURRENT name of the class object".  Known finding KF-C08-class-memo-stale: when
  * a triple's memoised class pointer equals the class argument although the triple's name is not the class's current name (the
  * class object was re-constructed under another name, or deleted and another type object now lives at its address), a
- * disagreement is reported under that signature. */
+ * disagreement is reported under that signature.
+ * Known finding KF-C08-borrowed-name: the oracle keeps every name BY VALUE (the text it was when Type_New ran: `tname`, `rcname`);
+ * after a `Z` into a buffer that a `__Name` cell or a triple name word points into, the type object reads another name than it
+ * was given — reported at the `Z` itself and at every lookup that disagrees with the declaration-by-value in such a state. */
 #include "common.h"
 #include <dlfcn.h>
 #include <pthread.h>
@@ -146,6 +153,18 @@ static void mark_dead(var c) { if (ndead < MAXEV) dead_addr[ndead++] = c; }
 static void mark_changed(var c) { if (!is_changed(c) && nchanged < MAXEV) changed_addr[nchanged++] = c; }
 static void mark_alive(var c) { for (int i = 0; i < ndead; i++) if (dead_addr[i] == c) { dead_addr[i] = dead_addr[--ndead]; mark_changed(c); i--; } }
 
+/* ---- caller-owned character buffers (op Z, name token @b) ---- */
+enum { NBUF = 64, NBUFW = 64 };
+static char nbuf[NBUF][NBUFW]; static int nbuf_used[NBUF];
+/* a name token: `@<b>` = the caller's buffer b (must hold a text), anything else = the text itself. returns 0 when ill-formed */
+static int name_tok(const char* tok, char** ptr) {
+  *ptr = NULL;
+  if (tok[0] != '@') return 1;
+  if (!tok[1] || strspn(tok + 1, "0123456789") != strlen(tok + 1)) return 0;
+  int b = atoi(tok + 1); if (b < 0 || b >= NBUF || !nbuf_used[b] || !nbuf[b][0]) return 0;
+  *ptr = nbuf[b]; return 1;
+}
+
 /* ---- raw access to a type record (independent of Type.c's lookup functions) ---- */
 static struct Type* raw_first(var T) { return (struct Type*)T + RAW_FIRST; }
 static const char* raw_name(var T) { return (const char*)((struct Type*)T)[RAW_NAME_ENTRY].inst; }
@@ -153,6 +172,26 @@ static int raw_count(var T) { int n = 0; for (struct Type* t = raw_first(T); t->
 static var raw_scan_name(var T, const char* cn) { for (struct Type* t = raw_first(T); t->name; t++) if (strcmp((const char*)t->name, cn) == 0) return t->inst; return NULL; }
 static int raw_index(var T, var inst) { if (!inst) return -1; int i = 0; for (struct Type* t = raw_first(T); t->name; t++, i++) if (t->inst == inst) return i; return -2; }
 static int raw_hdr(var T) { return ((struct Header*)((char*)T - sizeof(struct Header)))->type != NULL; }
+/* the name a type object was GIVEN (the text when Type_New ran), for the objects this harness created; the current reading otherwise */
+static const char* decl_name(var c) {
+  for (int k = 0; k < tid_hi; k++) if (th[k].kind == 3 && th[k].type == c && th[k].tname) return th[k].tname;
+  for (int k = 0; k < MAXC; k++) { if (!rcls[k].cls) continue; if (rcls[k].cls == c) return rcls[k].name; }
+  return raw_name(c);
+}
+static int type_dirty(var c) { return strcmp(decl_name(c), raw_name(c)) != 0; }
+/* a triple of the run-time type reads another class name than it was given */
+static int row_dirty(TH* h) {
+  if (h->kind != 3 || !h->rcname) return 0;
+  int i = 0; for (struct Type* t = raw_first(h->type); t->name && i < h->n; t++, i++) if (strcmp((const char*)t->name, h->rcname[i]) != 0) return 1;
+  return 0;
+}
+static int is_dead(var c);
+/* the territory of KF-C08-borrowed-name for a lookup of cls on h */
+static int borrowed_territory(TH* h, var cls) {
+  if (row_dirty(h) || type_dirty(cls)) return 1;
+  for (struct Type* t = raw_first(h->type); t->name; t++) if (t->cls && !is_dead(t->cls) && type_dirty(t->cls)) return 1;
+  return 0;
+}
 static int row_first(TH* h, const char* cn) { for (int i = 0; i < h->n; i++) if (strcmp(h->rname[i], cn) == 0) return i; return -1; }
 
 static const char* cls_token(var c, char* buf, size_t n) {
@@ -191,6 +230,7 @@ static const char* dump(TH* h, int memo_ids) {
    a class whose name is the triple's name, and then the triple is the first one with that name (or shares its instance) */
 static void check_inv(TH* h, size_t line) {
   var T = h->type; if (!T) return;
+  if (row_dirty(h)) return;                              /* the state of KF-C08-borrowed-name; reported at the Z and where a lookup goes wrong */
   for (int g = 0; g < ngslot; g++) {
     if (gslot[g].idx >= RAW_CACHE_WORDS) { X("sig=disp-cache-index line=%zu what=cache slot %d of class %s outside the %d cache words", line, gslot[g].idx, gslot[g].name, RAW_CACHE_WORDS); continue; }
     var w = ((var*)T)[gslot[g].idx];
@@ -200,6 +240,7 @@ static void check_inv(TH* h, size_t line) {
   for (struct Type* t = raw_first(T); t->name; t++) {
     if (!t->cls) continue;
     if (is_dead(t->cls)) continue;                       /* dangling: never dereferenced (neither here nor by Type_Scan) */
+    if (type_dirty(t->cls)) continue;                    /* KF-C08-borrowed-name: the class object reads another name than it was given */
     if (strcmp(raw_name(t->cls), (const char*)t->name) != 0) {
       if (is_changed(t->cls)) continue;                  /* the state of KF-C08-class-memo-stale; reported where a lookup goes wrong */
       X("sig=disp-memo-inv line=%zu what=triple %s of %s memoises class %s", line, (char*)t->name, raw_name(T), raw_name(t->cls));
@@ -368,10 +409,10 @@ static void fmt_res(char* buf, size_t n, var T, var exc, var got) {
 }
 
 static int row_first_for(TH* h, var cls) {
-  if (h->kind != 3) return row_first(h, raw_name(cls));
+  if (h->kind != 3) return row_first(h, decl_name(cls));
   for (int i = 0; i < h->n; i++) {
-    if (h->rcname) { if (strcmp(h->rcname[i], raw_name(cls)) == 0) return i; }
-    else { var c = resolve_cls(h->rname[i]); if (c && strcmp(raw_name(c), raw_name(cls)) == 0) return i; }
+    if (h->rcname) { if (strcmp(h->rcname[i], decl_name(cls)) == 0) return i; }
+    else { var c = resolve_cls(h->rname[i]); if (c && strcmp(decl_name(c), decl_name(cls)) == 0) return i; }
   }
   return -1;
 }
@@ -432,8 +473,9 @@ int main(int argc, char** argv) {
     case 'C': {
       if (nt != 3) { O("bad-op"); break; }
       int k = atoi(tok[1]); if (k < 0 || k >= MAXC || rcls[k].cls) { O("bad-op"); break; }
-      rcls[k].name = strdup(tok[2]);
-      rcls[k].cls = new_raw(Type, $S(rcls[k].name), $I(0));
+      char* np; if (!name_tok(tok[2], &np)) { O("bad-op"); break; }
+      rcls[k].name = strdup(np ? np : tok[2]);
+      rcls[k].cls = new_raw(Type, $S(np ? np : rcls[k].name), $I(0));
       O("C %d", k);
     } break;
     case 'B': case 'S': {
@@ -454,16 +496,17 @@ int main(int argc, char** argv) {
     case 'T': {
       if (nt < 3 || nt - 3 > MAXROW) { O("bad-op"); break; }
       int tid = atoi(tok[1]); if (tid < 0 || tid >= MAXT) { O("bad-op"); break; }
+      char* np; if (!name_tok(tok[2], &np)) { O("bad-op"); break; }
       TH nh; memset(&nh, 0, sizeof nh);
       if (!parse_row(&nh, tok + 3, nt - 3)) { free_type(&nh); O("bad-op"); break; }
       int bad = 0; for (int i = 0; i < nh.n; i++) if (!resolve_cls(nh.rname[i]) || (th[tid].kind == 3 && resolve_cls(nh.rname[i]) == th[tid].type)) bad = 1;
       if (bad) { free_type(&nh); O("bad-op"); break; }
       TH* h = &th[tid]; if (h->kind == 3) { var old = h->type; h->kind = 0; mark_dead(old); }   /* abandoned: as good as deleted */
       free_type(h); *h = nh; if (tid >= tid_hi) tid_hi = tid + 1;
-      h->tname = strdup(tok[2]);
+      h->tname = strdup(np ? np : tok[2]);
       h->cells = calloc(h->n + 1, sizeof(Cell));
       var* items = calloc(h->n + 3, sizeof(var));
-      items[0] = $S(h->tname); items[1] = $I(0);
+      items[0] = $S(np ? np : h->tname); items[1] = $I(0);
       h->rcname = calloc(h->n + 1, sizeof(char*));
       for (int i = 0; i < h->n; i++) {
         h->rcname[i] = strdup(raw_name(resolve_cls(h->rname[i])));
@@ -498,7 +541,8 @@ int main(int argc, char** argv) {
         how = !strcmp(m, "raw") ? 0 : !strcmp(m, "root") ? 1 : !strcmp(m, "gc") ? 2 : !strcmp(m, "alloc") ? 3 : !strcmp(m, "junk") ? 4 : !strcmp(m, "arena") ? 6 : -1;
         if (how < 0) { O("bad-op"); break; }
       } else if (th[tid].kind != 3) { O("bad-op"); break; }
-      const char* name = tok[first - 2]; long size = atol(tok[first - 1]);
+      char* np; if (!name_tok(tok[first - 2], &np)) { O("bad-op"); break; }
+      const char* name = np ? np : tok[first - 2]; long size = atol(tok[first - 1]);
       if (size < 0 || size > 1000000 || strspn(tok[first - 1], "0123456789") != strlen(tok[first - 1])) { O("bad-op"); break; }
       TH nh; memset(&nh, 0, sizeof nh);
       if (!parse_row(&nh, tok + first, nt - first)) { free_type(&nh); O("bad-op"); break; }
@@ -514,7 +558,7 @@ int main(int argc, char** argv) {
         if (h->kind == 3) { var old = h->type; h->kind = 0; mark_dead(old); }          /* abandoned: as good as deleted */
         free_type(h);
         nh.aslot = aslot;
-        var T = construct_type(how, NULL, &nh, cells, tname, size, &exc);
+        var T = construct_type(how, NULL, &nh, cells, np ? np : tname, size, &exc);
         if (exc) {
           if (exc != OutOfMemoryError || nh.n <= 256) X("sig=disp-typenew line=%zu what=creating a type with %d instances raised %s", line, nh.n, v_exc_name(exc));
           O("N %d n=%d %s", tid, nh.n, v_exc_name(exc)); free_type(&nh); free(cells); free(tname); break;
@@ -530,12 +574,12 @@ int main(int argc, char** argv) {
         var T = h->type;
         size_t bytes = sizeof(struct Type) * RAW_CELLS; void* snap = malloc(bytes); memcpy(snap, T, bytes);
         int hdr0 = raw_hdr(T);
-        construct_type(5, T, &nh, cells, tname, size, &exc);
+        construct_type(5, T, &nh, cells, np ? np : tname, size, &exc);
         if (exc) {
           /* refused: the declaration in force stays the old one and no word of the storage may have changed */
           if (exc != OutOfMemoryError || nh.n <= 256) X("sig=disp-typenew line=%zu what=re-constructing a type with %d instances raised %s", line, nh.n, v_exc_name(exc));
           if (memcmp(snap, T, bytes) != 0 || raw_hdr(T) != hdr0) X("sig=disp-construct-refused line=%zu what=a refused re-construction of %s changed the type object", line, raw_name(T));
-          int okr = record_matches(h, line, 1);
+          int okr = row_dirty(h) ? 1 : record_matches(h, line, 1);
           O("W %d n=%d %s %s%s z=%d", tid, nh.n, v_exc_name(exc), okr ? "ok" : "bad", dump(h, 1), raw_tail_nonnull(T));
           check_inv(h, line);
           free(snap); free_type(&nh); free(cells); free(tname); break;
@@ -616,7 +660,8 @@ int main(int argc, char** argv) {
       int stale = 0;
       if (is_changed(cls))        /* only a class object whose name was REWRITTEN since (renamed in place, or a new object on a deleted one's address) */
         for (struct Type* t = raw_first(T); t->name; t++) if (t->cls == cls && strcmp((const char*)t->name, raw_name(cls)) != 0) stale = 1;
-#define SIG(s) (stale ? "KF-C08-class-memo-stale" : (s))
+      int borrowed = borrowed_territory(h, cls);
+#define SIG(s) (stale ? "KF-C08-class-memo-stale" : borrowed ? "KF-C08-borrowed-name" : (s))
       long inv0 = invoked;
       if (op[0] == 'I' || op[0] == 'i') {
         var got = NULL;
@@ -637,7 +682,7 @@ int main(int argc, char** argv) {
         fmt_res(rb, sizeof rb, T, exc, got);
         int want_ok = er >= 0 && row_member(h, er, k);
         int raw_ok = rr >= 0 && ((var*)raw_first(T)[rr].inst)[k] != NULL;
-        if (want_ok != raw_ok) X("sig=disp-record line=%zu what=member %d of %s.%s: declaration and record disagree", line, k, raw_name(T), tok[2]);
+        if (want_ok != raw_ok) X("sig=%s line=%zu what=member %d of %s.%s: declaration and record disagree", SIG("disp-record"), line, k, raw_name(T), tok[2]);
         if (want_ok) { if (exc || raw_index(T, got) != er) X("sig=%s line=%zu what=method lookup %s.%s[%d] gave %s, declared triple %d", SIG("disp-method"), line, raw_name(T), tok[2], k, rb, er); }
         else if (exc == FormatError && (T == Terminal || cls == Terminal)) X("sig=KF-C08-terminal-message line=%zu what=method lookup of the absent %s.%s[%d] raised FormatError instead of ClassError: Terminal among the message arguments ends the argument tuple", line, raw_name(T), tok[2], k);
         else if (exc != ClassError) X("sig=%s line=%zu what=method lookup of the absent %s.%s[%d] gave %s instead of ClassError", SIG("disp-classerror"), line, raw_name(T), tok[2], k, rb);
@@ -755,6 +800,28 @@ int main(int argc, char** argv) {
       O("H n=%ld bad=%ld%s", tdone, tbad, dump(h, 0));
       check_inv(h, line); nlook += tdone;
       free(pt); free(ta); free(cls); free(want); free(wm0);
+    } break;
+    case 'Z': {
+      if (nt != 3 || strspn(tok[1], "0123456789") != strlen(tok[1]) || strlen(tok[2]) >= NBUFW) { O("bad-op"); break; }
+      int b = atoi(tok[1]); if (b < 0 || b >= NBUF) { O("bad-op"); break; }
+      strcpy(nbuf[b], tok[2]); nbuf_used[b] = 1;                 /* the caller's write: no function of the library is called */
+      static char tl[1 << 15], el[1 << 15]; size_t a = 0, e = 0; tl[0] = el[0] = 0;
+      for (int k = 0; k < MAXC; k++) if (rcls[k].cls && raw_name(rcls[k].cls) == nbuf[b]) {
+        a += snprintf(tl + a, sizeof tl - a, "%sr.%d", a ? "," : "", k);
+        if (strcmp(rcls[k].name, nbuf[b]) != 0) X("sig=KF-C08-borrowed-name line=%zu what=the class object constructed as %s reads %s after the caller wrote into its own buffer: Type_New kept the pointer inside the caller's String", line, rcls[k].name, raw_name(rcls[k].cls));
+      }
+      for (int k = 0; k < tid_hi; k++) if (th[k].kind == 3 && raw_name(th[k].type) == nbuf[b]) {
+        a += snprintf(tl + a, sizeof tl - a, "%st.%d", a ? "," : "", k);
+        if (strcmp(th[k].tname, nbuf[b]) != 0) X("sig=KF-C08-borrowed-name line=%zu what=the type object constructed as %s reads %s after the caller wrote into its own buffer: Type_New kept the pointer inside the caller's String", line, th[k].tname, raw_name(th[k].type));
+      }
+      for (int k = 0; k < tid_hi; k++) if (th[k].kind == 3) {
+        int i = 0;
+        for (struct Type* t = raw_first(th[k].type); t->name; t++, i++) if ((char*)t->name == nbuf[b]) {
+          e += snprintf(el + e, sizeof el - e, "%s%d:%d", e ? "," : "", k, i);
+          if (th[k].rcname && i < th[k].n && strcmp(th[k].rcname[i], nbuf[b]) != 0) X("sig=KF-C08-borrowed-name line=%zu what=triple %d of %s was given an instance of class %s and reads %s after the caller wrote into its own buffer: Type_New copied the class's name pointer", line, i, th[k].tname, th[k].rcname[i], (char*)t->name);
+        }
+      }
+      O("Z %d t=%s e=%s", b, tl, el);
     } break;
     default: O("bad-op");
     }
